@@ -31,10 +31,10 @@ type Outcome struct {
 	Problems []Problem
 	Invalid  string // the scenario could not be realised as intended (timing of a real deadline): not counted
 
-	afterClose []bool // actor started after a closer had returned
-	openAtErr  bool   // Serve entered sendError with the output open and nobody in between
-	cause      string // why Serve left its loop, as far as the scheduler knows
-	served     bool
+	afterClose             []bool // actor started after a closer had returned
+	openAtErr              bool   // Serve entered sendError with the output open and nobody in between
+	cause                  string // why Serve left its loop, as far as the scheduler knows
+	served                 bool
 	exitSeen, passedAtExit bool // Serve left its loop; the close deadline in force had passed by then
 	elemsRead, handled     int  // elements of the peer that Serve has read / that the handler was called for
 }
@@ -54,14 +54,14 @@ type astate struct {
 }
 
 type forced struct {
-	sc   *Scenario
-	o    *Outcome
-	c    *ctl
-	r    *rig
-	h    *handler
-	st   []astate
-	mu   sync.Mutex
-	res  []string
+	sc    *Scenario
+	o     *Outcome
+	c     *ctl
+	r     *rig
+	h     *handler
+	st    []astate
+	mu    sync.Mutex
+	res   []string
 	stash []event
 
 	inside    int
@@ -73,11 +73,11 @@ type forced struct {
 	inForce int
 	passed  bool
 	shortAt map[int]time.Time
-	serve     int
-	cur       *Pev
-	closers   int
-	aborted   bool
-	panics    []string
+	serve   int
+	cur     *Pev
+	closers int
+	aborted bool
+	panics  []string
 }
 
 func (f *forced) problem(key, what string) {
@@ -596,6 +596,9 @@ func runForced(sc *Scenario, choose func(depth int, enabled []int) int) *Outcome
 		r.close()
 	} else {
 		o.Wire, o.Residual = r.finish()
+		if r.lockLeft {
+			o.Problems = append(o.Problems, Problem{"C10/lock/output-lock-not-released", "every call had returned, but the output lock was still held 10 s later: a call returned without releasing it (later transmit and Close calls would block for ever)"})
+		}
 	}
 	xmpp.VerifSetHook(nil)
 	if f.aborted && o.Invalid == "" && len(o.Problems) == 0 {
